@@ -49,6 +49,10 @@ def key(op, impl, M, S):
         if iv == sv and ifr == sfr and ih != sh:
             return "%s-look:%s" % (t[2], typ)          # Parse(nil) returned something that does not look like the value
         return "%s-aliased:%s:depth%s" % (t[2], typ, depth)
+    if t[1] == "deep":
+        # deep-aliased:<kind of value: chain | selfmap | selfslice | ring | lasso | diamond>:<default|prefault>:<schema type>
+        kind = how.split(":")[1] if ":" in how else how
+        return "deep-aliased:%s:%s:%s" % (kind, t[2], typ)
     if t[1] == "own":
         # own:<what>:<schema type of the root>:<root of the modelled tree>
         iv, ifr, isw, ih = (impl.split("|") + ["", "", "", ""])[:4]
@@ -64,6 +68,13 @@ def key(op, impl, M, S):
 
 
 def describe(op):
+    if C.op_body(op).split(" ")[1] == "deep":
+        return ("deep: <default|prefault> <steps> | V — V = the value given to Default / Prefault (R label k (key V)^k cell, B label = a cell met before: "
+                "a B inside its own R is a self-reference); after '#': deep:<kind>:<schema>.<method> levels=<nesting levels of the spine>; kinds: chain (N nested "
+                "[]any / map[string]any), selfmap (m[\"self\"] = m), selfslice (xs[1] = xs), ring, lasso (chain ending in a ring), diamond (sharing, no cycle); "
+                "steps: P = Parse(nil) on the schema or its Describe clone, M<j>@<k> = follow the first container-holding entry of the j-th result k levels down and "
+                "mutate that cell in place; observation = <same|CHANGED per later P (look = tree unfolding to 90 levels)>|<fresh|ALIASED (iterative uncapped walk of "
+                "addresses against the held value and earlier results)> (harness/cmd/c15/deep.go)")
     if C.op_body(op).split(" ")[1] == "own":
         return ("own: <number of schema-owned cells m> <steps> | T <content ids of the string scalars> | schema ; schema ; ... | input ; input ; ... "
                 "schemas: T ::= any | str | lit k V^k | dflt V T | obj <s|l|x> k (key T)^k | slice T | rec T | union T T (harness/cmd/c15/own.go; the family is "
@@ -117,6 +128,8 @@ def run(res):
         "on fresh equal copies; the Lean model (parseS / stepC) predicts verdicts, looks, aliasing and schema state. val / reparse additionally draw state-holding leaves (Literal[any] / LiteralOf[any] / "
         "LiteralTyped over composites of 11 Go types, their Optional / RefineAny / Default clones, FromJSONSchema const / enum / default with composite values) inside every container kind; reparse checks "
         "the result against storex.SchemaAddrs (every cell reachable from the schema). "
+        "deep: 5 schema types x {Default, Prefault} x {chains of 20-48 nested any-typed containers, self-referential map / slice, rings of 2-5 cells, lassos, diamonds} x histories "
+        "P M0@k P + random M<j>@<k> / P on the family with k around the clone's limit (31-34), at the end of the spine and beyond one turn of a cycle; iterative uncapped walkers. "
         "ptr(ctor): every exported XxxPtr constructor of package types (listed from the source by go/ast, 108) x every accepted value of a 70-value pool through a fresh pointer, Parse and StrictParse. "
         "ptr / dflt / reparse: the round-1 classes over storex.Probes(). distinct = distinct op bodies (graph shapes × histories).")
     # the same-pointer clause quantifies over every pointer-typed constructor: the harness lists them from the source (go/ast)
